@@ -1823,3 +1823,146 @@ Proof.
   rewrite Hd. rewrite (flat_map_dims syd sxd dy dx (g_ny dst) (g_nx dst) pre n1 n2 post Hne Hok).
   reflexivity.
 Qed.
+
+Lemma out_georef pre post syd sxd (c : option crs) ny nx fyl fxl ay ax Py P cc at_ kept :
+  other_dims_ok (pre ++ post) syd sxd -> 0 <= ny -> 0 <= nx ->
+  clean_attrs at_ ->
+  filter (fun nc => is_spatial_ref (snd nc)) kept = [] ->
+  co_dims cc = [] -> is_spatial_ref cc = true ->
+  let dy := fst (crs_dims c) in
+  let dx := snd (crs_dims c) in
+  georef dy dx fyl fxl ay ax Py P (Some DEFAULT_CRS_COORD_NAME) (Some (DEFAULT_CRS_COORD_NAME, cc)) (iota ny) (iota nx)
+         (XObj false (pre ++ [(dy, ny); (dx, nx)] ++ post) (Some DEFAULT_CRS_COORD_NAME) at_
+               (aupdate kept [(dy, Coord [dy] (map fyl (iota ny)) ay Py);
+                              (dx, Coord [dx] (map fxl (iota nx)) ax P);
+                              (DEFAULT_CRS_COORD_NAME, cc)]) []).
+Proof.
+  intros Hok Hny Hnx Hat Hk Hcd Hcs dy dx.
+  destruct (out_dims_facts pre post syd sxd c ny nx Hok) as (D1 & D2 & D3). fold dy dx in D1, D2, D3.
+  assert (N : dy <> dx /\ dy <> DEFAULT_CRS_COORD_NAME /\ dx <> DEFAULT_CRS_COORD_NAME).
+  { subst dy dx. destruct (crs_dims_cases c) as [E|E]; rewrite E; repeat split; discriminate. }
+  destruct N as (N1 & N2 & N3).
+  unfold aupdate. cbn [fold_left fst snd].
+  constructor; cbn [x_is_ds x_dims x_gm x_attrs x_coords].
+  - reflexivity.
+  - exact D1.
+  - rewrite D2, zlen_iota. f_equal; lia.
+  - rewrite D3, zlen_iota. f_equal; lia.
+  - rewrite !lookup_aset. rewrite (eqb_neq dy DEFAULT_CRS_COORD_NAME N2), (eqb_neq dy dx N1), String.eqb_refl. reflexivity.
+  - rewrite !lookup_aset. rewrite (eqb_neq dx DEFAULT_CRS_COORD_NAME N3), String.eqb_refl. reflexivity.
+  - right; reflexivity.
+  - exact Hat.
+  - rewrite (filter_aset_nil is_spatial_ref).
+    + rewrite Hcs. reflexivity.
+    + rewrite (filter_aset_nil is_spatial_ref); [reflexivity|].
+      rewrite (filter_aset_nil is_spatial_ref); [reflexivity | exact Hk].
+  - rewrite lookup_aset_same. reflexivity.
+  - exact Hcd.
+Qed.
+
+Lemma keep_no_spatial_ref syd sxd (cs : coords) :
+  filter (fun nc => is_spatial_ref (snd nc)) (filter (fun nc => keep_pred syd sxd (snd nc)) cs) = [].
+Proof.
+  apply (filter_filter_nil is_spatial_ref (keep_pred syd sxd)).
+  intros v H. unfold keep_pred in H. apply andb_true_iff in H. destruct H as (H & _).
+  destruct (is_spatial_ref v); [discriminate | reflexivity].
+Qed.
+
+Lemma clean_out_attrs itol a nd : clean_attrs (out_attrs itol a nd).
+Proof. unfold clean_attrs; repeat split; apply out_attrs_spatial; simpl; tauto. Qed.
+
+(** what an output coordinate is: the destination's, or a kept source coordinate *)
+Lemma out_coords_spec (kept new : coords) k :
+  lookup k (aupdate kept new) = match lookup k (rev new) with Some c => Some c | None => lookup k kept end.
+Proof. apply lookup_aupdate. Qed.
+
+Section ReprojectDa.
+  Variables (tol itol : Q) (src : xobj) (dst : gbox) (nd : option Q).
+  Variables (st : geostate) (sb : anybox) (syd sxd : string) (pre post : list (string * Z)) (n1 n2 : Z) (cd : crs).
+  Hypothesis Hl : locate_geo_info repaired tol src = Ok st.
+  Hypothesis Hb : gs_box st = Some sb.
+  Hypothesis Hc : box_crs sb <> None.
+  Hypothesis Hsd : gs_sdims st = Some (syd, sxd).
+  Hypothesis Hd : x_dims src = pre ++ [(syd, n1); (sxd, n2)] ++ post.
+  Hypothesis Hne : syd <> sxd.
+  Hypothesis Hok : other_dims_ok (pre ++ post) syd sxd.
+  Hypothesis Hcrs : g_crs dst = Some cd.
+  Hypothesis Hny : 1 <= g_ny dst.
+  Hypothesis Hnx : 1 <= g_nx dst.
+
+  Let t := g_aff dst.
+  Let dy := fst (crs_dims (g_crs dst)).
+  Let dx := snd (crs_dims (g_crs dst)).
+  Let kept := filter (fun nc => keep_pred syd sxd (snd nc)) (x_coords src).
+
+  (** axis-aligned destination *)
+  Lemma reproject_da_st :
+    is_affine_st tol t = true ->
+    exists new out T,
+      xr_coords tol (ABox dst) (Some DEFAULT_CRS_COORD_NAME) = Ok new /\
+      reproject_da repaired tol itol src dst nd = Ok out /\
+      x_coords out = aupdate kept new /\
+      x_attrs out = out_attrs itol (x_attrs src) nd /\
+      x_gm out = Some DEFAULT_CRS_COORD_NAME /\
+      x_dims out = pre ++ [(dy, g_ny dst); (dx, g_nx dst)] ++ post /\
+      locate_geo_info repaired tol out =
+        Ok (GeoState (Some (dy, dx)) (Some cd) (Some T) (Some (ABox (GBox (g_ny dst) (g_nx dst) T (Some cd))))) /\
+      aff_eq T (Aff (fa t) 0 (fc t) 0 (fe t) (ff t)).
+  Proof.
+    intros Hst.
+    rewrite (reproject_da_unfold tol itol src dst nd st sb syd sxd pre n1 n2 post Hl Hb Hc Hsd Hd Hne Hok).
+    fold dy dx kept.
+    assert (En : xr_coords tol (ABox dst) (Some DEFAULT_CRS_COORD_NAME) =
+                 Ok [(dy, Coord [dy] (map (label (ff t) (fe t)) (iota (g_ny dst))) (st_attrs (fe t) (Some cd)) None);
+                     (dx, Coord [dx] (map (label (fc t) (fa t)) (iota (g_nx dst))) (st_attrs (fa t) (Some cd)) None);
+                     (DEFAULT_CRS_COORD_NAME, mk_crs_coord cd None (Some t))]).
+    { unfold xr_coords. cbn [box_crs]. fold t. rewrite Hst. subst dy dx. rewrite Hcrs.
+      destruct (crs_dims_cases (Some cd)) as [E|E]; rewrite E; reflexivity. }
+    rewrite En. simpl bind.
+    eexists _, _.
+    pose proof (out_georef pre post syd sxd (g_crs dst) (g_ny dst) (g_nx dst)
+                  (label (ff t) (fe t)) (label (fc t) (fa t)) (st_attrs (fe t) (Some cd)) (st_attrs (fa t) (Some cd))
+                  None None (mk_crs_coord cd None (Some t)) (out_attrs itol (x_attrs src) nd) kept
+                  Hok ltac:(lia) ltac:(lia) (clean_out_attrs _ _ _) (keep_no_spatial_ref _ _ _) eq_refl eq_refl) as G.
+    fold dy dx in G.
+    destruct (georef_roundtrip_st tol t (Some cd) (Some DEFAULT_CRS_COORD_NAME) dy dx None _ (g_ny dst) (g_nx dst) G Hst Hny Hnx)
+      as (T & E & A).
+    { right. split; congruence. }
+    exists T. repeat (split; [reflexivity|]). split; [exact E | exact A].
+  Qed.
+
+  (** rotated / sheared destination *)
+  Lemma reproject_da_rot :
+    is_affine_st tol t = false ->
+    exists new out T,
+      xr_coords tol (ABox dst) (Some DEFAULT_CRS_COORD_NAME) = Ok new /\
+      reproject_da repaired tol itol src dst nd = Ok out /\
+      x_coords out = aupdate kept new /\
+      x_attrs out = out_attrs itol (x_attrs src) nd /\
+      x_gm out = Some DEFAULT_CRS_COORD_NAME /\
+      x_dims out = pre ++ [(dy, g_ny dst); (dx, g_nx dst)] ++ post /\
+      locate_geo_info repaired tol out =
+        Ok (GeoState (Some (dy, dx)) (Some cd) (Some T) (Some (ABox (GBox (g_ny dst) (g_nx dst) T (Some cd))))) /\
+      aff_eq T t.
+  Proof.
+    intros Hst.
+    rewrite (reproject_da_unfold tol itol src dst nd st sb syd sxd pre n1 n2 post Hl Hb Hc Hsd Hd Hne Hok).
+    fold dy dx kept.
+    assert (En : xr_coords tol (ABox dst) (Some DEFAULT_CRS_COORD_NAME) =
+                 Ok [(dy, Coord [dy] (map pix_label (iota (g_ny dst))) [("units", VOther)] (Some t));
+                     (dx, Coord [dx] (map pix_label (iota (g_nx dst))) [("units", VOther)] (Some t));
+                     (DEFAULT_CRS_COORD_NAME, mk_crs_coord cd None (Some t))]).
+    { unfold xr_coords. cbn [box_crs]. fold t. rewrite Hst. subst dy dx. rewrite Hcrs.
+      destruct (crs_dims_cases (Some cd)) as [E|E]; rewrite E; reflexivity. }
+    rewrite En. simpl bind.
+    eexists _, _.
+    pose proof (out_georef pre post syd sxd (g_crs dst) (g_ny dst) (g_nx dst)
+                  pix_label pix_label [("units", VOther)] [("units", VOther)]
+                  (Some t) (Some t) (mk_crs_coord cd None (Some t)) (out_attrs itol (x_attrs src) nd) kept
+                  Hok ltac:(lia) ltac:(lia) (clean_out_attrs _ _ _) (keep_no_spatial_ref _ _ _) eq_refl eq_refl) as G.
+    fold dy dx in G.
+    destruct (georef_roundtrip_rot tol t (Some cd) (Some DEFAULT_CRS_COORD_NAME) dy dx (Some t) _ (g_ny dst) (g_nx dst) G Hny Hnx)
+      as (T & E & A).
+    exists T. repeat (split; [reflexivity|]). split; [exact E | exact A].
+  Qed.
+End ReprojectDa.
